@@ -343,6 +343,7 @@ func TestC12(t *testing.T) {
 	c := rt.Get()
 	srcs := []string{"rx-notif", "hdr", "open", "fsm", "hold", "plug-open", "plug-upd"}
 	nonDamp := []string{"cease-rx", "close", "rst", "readd", "plug-cease"}
+	exact := map[string]bool{"rx-notif": true, "hdr": true, "open": true, "fsm": true, "plug-open": true, "plug-upd": true}
 	deltas := []int64{0, 100000, 239000, 299000, 299990, 300010, 301000, 1000000}
 	codes := []uint8{1, 2, 3, 4, 5, 7, 8, 0, 255}
 	n := c.N(6000, 400000)
@@ -353,6 +354,7 @@ func TestC12(t *testing.T) {
 		}
 		r := c.Rand("c12", i)
 		p := c12Params{Passive: r.IntN(3) == 0, Seed: uint64(i)*2147483647 + c.Seed, Hook: hookMode(r)}
+		prevDamp := ""
 		for k := 1 + r.IntN(maxLen); k > 0; k-- {
 			if r.IntN(4) == 0 {
 				st := c12Step{Src: nonDamp[r.IntN(len(nonDamp))], State: allStates[r.IntN(3)], Dir: allDirs[r.IntN(2)]}
@@ -384,6 +386,13 @@ func TestC12(t *testing.T) {
 			if p.Passive {
 				st.Dir = "in"
 			}
+			// exactly 300 s after the previous error (the boundary of "300 s without one"):
+			// only where corebgp sees both errors at the virtual instants the remote caused
+			// them, i.e. no timer-driven error and no virtual delays at the schedule points
+			if exact[st.Src] && exact[prevDamp] && p.Hook != hz.HookVSleep && r.IntN(4) == 0 {
+				st.DeltaMS = 300000
+			}
+			prevDamp = st.Src
 			p.Steps = append(p.Steps, st)
 		}
 		runCase(t, "hist", i, p, func(t *testing.T) rt.Result { return c12World(t, p) })
